@@ -195,6 +195,31 @@ func (e *Env) wireEq(a, b Value, l *layout) *Term {
 	return And(cs...)
 }
 
+// containsTerm(a, b): b occurs in a. For a concatenation a1 ++ ... ++ an the (equivalent) disjunction
+// "b occurs in some ai, or in the whole" is built, so that "appending keeps what was there" is decided
+// propositionally instead of by the string solver.
+func containsTerm(a, b *Term) *Term {
+	if a.String() == b.String() {
+		return True
+	}
+	whole := mk("str.contains", SBool, a, b)
+	if a.Op != "str.++" {
+		return whole
+	}
+	ds := []*Term{}
+	for _, x := range a.Args {
+		if x.String() == b.String() {
+			return True
+		}
+		if x.IsStr() && !b.IsStr() {
+			continue // a literal piece: covered by the whole
+		}
+		ds = append(ds, mk("str.contains", SBool, x, b))
+	}
+	ds = append(ds, whole)
+	return Or(ds...)
+}
+
 func bufHandle(e *Env, x ast.Expr) *Term {
 	v := e.eval(x)
 	p, ok := v.(Ptr)
@@ -277,11 +302,19 @@ func init() {
 			}
 			return Scalar{errorsIs(e.st, a, b)}
 		},
+		// fmtv(x): the text fmt's %v prints for the interface value x (uninterpreted; a string prints as itself)
+		"fmtv": func(e *Env, args []ast.Expr) Value {
+			t := fmtvTerm(e.st, e.eval(args[0]))
+			if t == nil {
+				fail("spec: fmtv() needs an interface value")
+			}
+			return Scalar{t}
+		},
 		// contains(a, b): string b occurs in string a
 		"contains": func(e *Env, args []ast.Expr) Value {
 			a := e.toTerm(e.eval(args[0]))
 			b := e.toTerm(e.eval(args[1]))
-			return Scalar{mk("str.contains", SBool, a, b)}
+			return Scalar{containsTerm(a, b)}
 		},
 		// wrote_nothing(): no heap cell that existed at entry was written on any explored path so far
 		"wrote_nothing": func(e *Env, args []ast.Expr) Value {
@@ -548,6 +581,16 @@ func init() {
 		},
 		"syncmapp": func(e *Env, args []ast.Expr) {
 			mr := specFuncs["syncmapp"](e, args).(MapRef)
+			e.st.mapCell(mr)
+			e.fr.havocCell(e.st, mr.H.String(), -1)
+		},
+		// entries(m): the entries of the Go map m (the map object, not the variable that holds it)
+		"entries": func(e *Env, args []ast.Expr) {
+			mr, ok := e.eval(args[0]).(MapRef)
+			if !ok {
+				fail("spec: modifies entries(map)")
+			}
+			mr = e.st.canon(mr).(MapRef)
 			e.st.mapCell(mr)
 			e.fr.havocCell(e.st, mr.H.String(), -1)
 		},
